@@ -89,3 +89,46 @@ Proof.
   unfold tstep, norm_pc, mark; cbn. unfold exec; cbn.
   eexists. eexists. split; [reflexivity|]. split; [reflexivity|]. cbn [FL.step]. rewrite Hid. reflexivity.
 Qed.
+
+(** The other direction of "Lock is enabled iff nobody holds", as far as C08 proves it: when no
+    lock file is in place (so the abstract lock is free), a waiting request at the top of its loop
+    acquires by two steps of the product, in no time: the O_EXCL create, and the return of Lock
+    together with the Issuance acquisition (C08's [free_lock_obtained_at_once] + [grant_never_refused]). *)
+Theorem free_lock_acquired_at_once c (Hchk : FL.checks c = true) (Hgrd : FL.guard c = true) (Hcfg : FLP.good_cfg c)
+  cs st ls s F w th ec b p :
+  iruns c (iinit cs st) ls (s, F) -> thread_at s w th -> tpc th = PLockWait ->
+  FL.file (F (c_lk (cfg th))) = None -> FL.cs (F (c_lk (cfg th))) w = FL.CTry ec ->
+  (FL.lastcreate (F (c_lk (cfg th))) < FL.now (F (c_lk (cfg th))))%Z ->
+  lks (sh s) (c_lk (cfg th)) = None /\
+  exists s' F', iruns c (s, F) [IEnv (FOne (c_lk (cfg th)) (FL.LTryCreate w)); IThr (Label w FNone b) p] (s', F') /\
+    lks (sh s') (c_lk (cfg th)) = Some w /\
+    exists i, FL.cs (F' (c_lk (cfg th))) w = FL.CHolding i /\ FL.file (F' (c_lk (cfg th))) = Some i.
+Proof.
+  intros R Ht Hp Hf Hw Hl. set (k := c_lk (cfg th)) in *.
+  destruct (impl_refines_issuance c Hchk Hgrd Hcfg cs st ls s F R) as (Hr & HC & HI).
+  assert (Hfree : lks (sh s) k = None).
+  { rewrite HC. destruct (holder (F k)) as [u|] eqn:E; [|reflexivity].
+    destruct (holder_owns_file c (F k) u (HI k) E) as (i & _ & Hfi & _). congruence. }
+  split; [exact Hfree|].
+  destruct (FLP.free_lock_obtained_at_once c (F k) w ec Hf Hw Hl) as (s2 & Hrun & Hh & Hf2 & _).
+  cbn [FL.run] in Hrun.
+  destruct (FL.step c (F k) (FL.LTryCreate w)) as [x1|] eqn:E1; [|discriminate].
+  destruct (FL.step c x1 (FL.LWriteMeta w)) as [x2|] eqn:E2; [|discriminate]. injection Hrun as <-.
+  (* step 1: the create, an internal step of the lock files *)
+  assert (S1 : istep c (s, F) (IEnv (FOne k (FL.LTryCreate w))) (s, updf F k x1)).
+  { apply is_env; [reflexivity | apply live_ok_nonkill; discriminate | apply fs_one; [reflexivity | exact E1]]. }
+  destruct (istep_coupled c Hchk Hgrd Hcfg (s, F) _ _ HC HI S1) as [HC1 HI1]. cbn [fst snd] in HC1, HI1.
+  (* step 2: Lock returns nil *)
+  assert (E2' : FL.step c (updf F k x1 (c_lk (cfg th))) (FL.LWriteMeta w) = Some x2) by (fold k; rewrite updf_eq; exact E2).
+  destruct (grant_never_refused c Hchk Hgrd Hcfg s (updf F k x1) w th x2 b HC1 HI1 Ht Hp E2') as (s1 & Hs1 & Hsy).
+  fold k in Hs1, Hsy.
+  assert (S2 : istep c (s, updf F k x1) (IThr (Label w FNone b) p) (s1, updf (updf F k x1) k x2)).
+  { eapply is_sync; [exact Hs1 | exact (Hsy p) | rewrite updf_eq; exact E2]. }
+  destruct (istep_coupled c Hchk Hgrd Hcfg (s, updf F k x1) _ _ HC1 HI1 S2) as [HC2 HI2]. cbn [fst snd] in HC2, HI2.
+  exists s1, (updf (updf F k x1) k x2). split.
+  { econstructor; [exact S1|]. econstructor; [exact S2|]. constructor. }
+  assert (Hh2 : FL.cs (updf (updf F k x1) k x2 k) w = FL.CHolding (FL.nexti (F k))) by (rewrite updf_eq; exact Hh).
+  split.
+  - rewrite HC2. destruct (HI2 k) as (HB & HM & _). apply (holder_some c _ w HB HM). eauto.
+  - exists (FL.nexti (F k)). split; [exact Hh2 | rewrite updf_eq; exact Hf2].
+Qed.
